@@ -74,19 +74,25 @@ def main() -> int:
     disagreements = [(r["suite"], d) for r in results for d in r["disagreements"]]
 
     # ---------------------------------------------------------------- 3. failing-input search
+    known = [f for f in common.load_known_findings() if f.get("property") == prop and f.get("status") == "open"]
+    known_sigs = {f["signature"] for f in known}
+
+    def unlisted(vs):
+        """violations that are not instances of a listed known finding (a known finding answers for nothing else)"""
+        return [(sn, v) for sn, v in vs if common.get_suite(sn).signature(v["case"], v["desc"], prop) not in known_sigs]
+
     searched = 0
-    if (proof_broken or disagreements) and not violations:
+    if (proof_broken or disagreements) and not unlisted(violations):
         budget = 4 if args.tier == "quick" else 12
         for k in range(budget):
             for sname, counts in reg["suites"]:
                 r = common.run_suite(sname, prop, seed + 1000 + k, counts[0], args.tier)
                 searched += r["n"]
                 violations += [(sname, v) for v in r["violations"]]
-            if violations:
+            if unlisted(violations):
                 break
 
     # ---------------------------------------------------------------- 4. verdict
-    known = [f for f in common.load_known_findings() if f.get("property") == prop and f.get("status") == "open"]
     lines = []
     new_violations = 0
     known_hit = {}
@@ -111,7 +117,7 @@ def main() -> int:
                                           "broken": proof_broken + [d["desc"][:300] for _, d in disagreements[:3]]})
         lines.append("VIOLATION property=%s replay=%s" % (prop, path))
         new_violations += 1
-    if not violations and (proof_broken or disagreements):
+    if not unlisted(violations) and (proof_broken or disagreements):
         what = {"property": prop, "kind": "no-failing-input-found", "broken_proof_obligations": proof_broken,
                 "broken_correspondence": [{"suite": s, "case": d["case"], "desc": d["desc"], "impl": d["impl"], "model": d["model"]}
                                           for s, d in disagreements[:5]],
